@@ -1637,8 +1637,10 @@ pub fn lookup(seed: u64, focus: Focus, rep: &mut Report) {
                     }
                 }
             }
+            let mut seeds_of: HashMap<usize, HashSet<Id>> = HashMap::new();
             for j in 0..k {
                 let target: Id = rng.array();
+                seeds_of.insert(s.apis.len(), s.w.table().iter().map(|e| e.0).collect());
                 s.api_find_node(target);
                 let gap = Duration::from_millis(*rng.pick(&[1u64, 20, 100, 300]));
                 s.advance(gap, rep).await;
@@ -1650,6 +1652,7 @@ pub fn lookup(seed: u64, focus: Focus, rep: &mut Report) {
                         tokio::time::sleep((request_timeout / 8).max(Duration::from_millis(2))).await;
                     }
                     let target: Id = rng.array();
+                    seeds_of.insert(s.apis.len(), s.w.table().iter().map(|e| e.0).collect());
                     s.api_find_node(target);
                 }
             }
@@ -1678,6 +1681,7 @@ pub fn lookup(seed: u64, focus: Focus, rep: &mut Report) {
             // a FINDNODE to peer P asks first for log2(target xor P), so a request is attributed
             // to a lookup when that value fits exactly one of the lookups running at that moment
             {
+                let lookup_api: Vec<usize> = s.apis[first..].iter().enumerate().filter(|(_, a)| matches!((&a.target, &a.done), (Some(_), Some((_, ApiOut::Nodes(Ok(_))))))).map(|(n, _)| first + n).collect();
                 let lookups: Vec<(Id, Duration, Duration, Vec<Id>)> = s.apis[first..].iter().filter_map(|a| match (&a.target, &a.done) {
                     (Some(t), Some((done, ApiOut::Nodes(Ok(v))))) => Some((*t, a.started, *done, v.iter().map(|e| e.node_id().raw()).collect())),
                     _ => None,
@@ -1688,6 +1692,7 @@ pub fn lookup(seed: u64, focus: Focus, rep: &mut Report) {
                 let mut told: Vec<(usize, Duration, Id)> = Vec::new(); // (lookup, when, candidate)
                 let mut parts: HashMap<(usize, Vec<u8>), (u64, Vec<Vec<u8>>)> = HashMap::new();
                 let mut sent_by: Vec<(usize, Duration)> = Vec::new();
+                let mut named: Vec<(Option<usize>, Duration, Id)> = Vec::new();
                 // every packet that may stand for a request to a node: (when, the lookup it belongs
                 // to if the wire tells, whether it is an undecodable "random" packet). A random
                 // packet belongs to the request that the handshake following it carries (one
@@ -1725,11 +1730,18 @@ pub fn lookup(seed: u64, focus: Focus, rep: &mut Report) {
                         }
                         WEv::Injected { node: Some(i), msg: Some(RefMessage::Nodes { id, records, total }), .. } => {
                             // the records of an answer reach the lookup when its last packet is in
-                            if let Some(Some(k)) = owner.get(&(*i, id.clone())) {
+                            if let Some(o) = owner.get(&(*i, id.clone())) {
                                 let entry = parts.entry((*i, id.clone())).or_insert((0u64, Vec::new()));
                                 entry.0 += 1;
                                 entry.1.extend(records.iter().cloned());
-                                if entry.0 == (*total).max(1) {
+                                // (for "when did a lookup first hear of a node": every packet of an
+                                // answer, whichever lookup it may belong to)
+                                for r in records {
+                                    if let Some(enr) = rlp_ref::decode_record(r) {
+                                        named.push((*o, *at, enr.node_id().raw()));
+                                    }
+                                }
+                                if let (Some(k), true) = (o, entry.0 == (*total).max(1)) {
                                     for r in &entry.1 {
                                         if let Some(enr) = rlp_ref::decode_record(r) {
                                             told.push((*k, *at, enr.node_id().raw()));
@@ -1774,7 +1786,12 @@ pub fn lookup(seed: u64, focus: Focus, rep: &mut Report) {
                                     // (a request of this lookup may also have waited behind a handshake
                                     // that another request had opened before the lookup began, and
                                     // have failed with it without a packet of its own)
-                                    let from = started.saturating_sub(request_timeout * (retries as u32 + 1) + Duration::from_millis(50));
+                                    // The lookup's request to the candidate is made after it first
+                                    // heard of it: at its start for an entry of the table, else
+                                    // with the first answer to one of its requests that named it.
+                                    let seed = seeds_of.get(&lookup_api[k]).map_or(true, |t| t.contains(x));
+                                    let heard = if seed { *started } else { named.iter().filter(|(l, t, y)| l.map_or(true, |l| l == k) && y == x && *t >= *started).map(|(_, t, _)| *t).min().unwrap_or(*started) };
+                                    let from = heard.saturating_sub(request_timeout * (retries as u32 + 1) + Duration::from_millis(50));
                                     let mine: Vec<_> = v.iter().filter(|(t, _, _)| *t >= from).collect();
                                     !mine.is_empty() && mine.iter().all(|(_, o, _)| matches!(o, Some(j) if *j != k))
                                 }
